@@ -18,6 +18,8 @@ CONSTANTS
   UserParams,            \* sequence of [g, p] records: the SetParam alphabet (besides the two rates)
   LockNames,             \* group names lockGroup/unlockGroup are tried with
   Files,                 \* sequence of byte sequences that may be loaded (spec-generated files); <<>> switches loading off
+  AliasGroups,           \* group names c3d::parameter is called with while its argument is a parameter of the object itself
+  WithAlias,             \* TRUE: frames of the object itself are handed back to frame()
   WithEdits,             \* TRUE: stored frames are edited in place through the public non-const accessors
   WithReload,            \* TRUE: save + load (through the file format model) is an action
   Lookups,               \* TRUE: the read-only look-ups of C11 are explored in every state
@@ -65,6 +67,8 @@ FrameOfKind(kind, tag) ==
     [] kind = "rename" -> MkFrame(<<XName>> \o Tail(PLabels), DeclSubs, ALabels, tag)
     [] kind = "lessch" -> MkFrame(PLabels, DeclSubs, ButLast(ALabels), tag)
     [] kind = "morech" -> MkFrame(PLabels, DeclSubs, Append(ALabels, YName), tag)
+    [] kind = "lessch0"-> MkFrame(PLabels, 1, ButLast(ALabels), tag)        \* channels declared but the rate ratio is below 1 (0 sub-frames per frame):
+    [] kind = "morech0"-> MkFrame(PLabels, 1, Append(ALabels, YName), tag)   \* a frame with one sub-frame and a wrong channel count is still refused
     [] kind = "empty"  -> EmptyFrame
     [] kind = "padded" -> PadNames(MkFrame(PLabels, DeclSubs, ALabels, tag))                       \* names given with a trailing space (setter)
     [] kind = "ctorpad"-> PadNames(MkFrame(PLabels, DeclSubs, ALabels, tag)) @@ [ctor |-> 1]     \* same, through the naming constructors
@@ -77,6 +81,7 @@ KindApplies(kind) ==
   CASE kind \in {"lesspt", "rename"} -> PUsed >= 1 /\ Len(PLabels) = PUsed
     [] kind = "morept" -> PUsed >= 1
     [] kind \in {"lessch", "morech"} -> AUsed >= 1 /\ DeclSubs >= 1
+    [] kind \in {"lessch0", "morech0"} -> AUsed >= 1 /\ obj.hdr.perframe = 0
     [] kind \in {"padded", "ctorpad"} -> PUsed >= 1
     [] kind = "dupnames" -> PUsed = 0 /\ PLabels = <<>>
     [] kind = "undeclA" -> AUsed = 0 /\ ALabels = <<>>
@@ -109,6 +114,7 @@ Done(o, op, out, sets) ==
   /\ obj' = o /\ lastOp' = op /\ lastOut' = out /\ lastSets' = sets /\ hist' = Append(hist, op) /\ lastRes' = <<>>
   /\ inScope' = (inScope /\ ~(out = "ok" /\ op.op \in {"DeclPoint", "DeclAnalog", "AddPointCols", "AddAnalogCols"} /\ HasGap)
                           /\ ~(out = "ok" /\ op.op = "AddFrame" /\ ~Conforming(IF "c" \in DOMAIN op THEN callers[op.c] ELSE NormFrame(op.frame)))
+                          /\ ~(out = "ok" /\ op.op = "AddFrameAlias" /\ ~Conforming(obj.frm[op.src + 1]))
                           \* the caller overwrote a derived POINT / ANALOG parameter (anything but the two rates) by hand: the declared
                           \* shape is then whatever the caller says, C05's clauses are not evaluated for the rest of the history
                           /\ ~(out = "ok" /\ op.op = "SetParam" /\ op.g \in {sPOINT, sANALOG} /\ op.p.n # sRATE
@@ -263,6 +269,25 @@ NoCaseCollision(gname, pname) ==
   /\ \A i \in 1..Len(G) : Upper(G[i].n) = Upper(gname) => G[i].n = gname
   /\ GroupIdx(G, gname) # 0 => \A k \in 1..Len(G[GroupIdx(G, gname)].p) :
                                     Upper(G[GroupIdx(G, gname)].p[k].n) = Upper(pname) => G[GroupIdx(G, gname)].p[k].n = pname
+\* c3d::parameter with a Parameter object p (however the caller obtained it)
+StoreParam(gname, p, op, outs) ==
+  LET out == SetParamOutcome(gname, p) IN
+  IF out # "ok" THEN Done(obj, op, out, outs)
+  ELSE LET grp1 == IF GroupIdx(G, gname) = 0 THEN Append(G, MkGroup(gname, <<>>)) ELSE G
+           gi == GroupIdx(grp1, gname)
+           grp2 == [grp1 EXCEPT ![gi] = PutInGroup(grp1[gi], p)]
+       IN /\ MandHeader(grp2)
+          /\ Done([obj EXCEPT !.grp = grp2, !.hdr = UpdateHeader(obj.hdr, grp2, obj.frm, TRUE)], op, "ok", outs)
+\* the argument is a reference to a parameter stored in this very object (c.parameter("NEW", c.parameters().group(g).parameter(p))):
+\* value semantics - the stored copy equals the parameter as it was before the call
+SetParamAlias(gname, sg, sp) ==
+  /\ sg \in 1..Len(G) /\ sp \in 1..Len(G[sg].p) /\ NoCaseCollision(gname, G[sg].p[sp].n)
+  /\ StoreParam(gname, G[sg].p[sp], [op |-> "SetParamAlias", g |-> gname, sg |-> sg - 1, sp |-> sp - 1], <<>>)
+  /\ UNCHANGED callers
+\* the argument is one of the frames of this very object (c.frame(c.data().frame(i), idx))
+AddStoredFrame(src, idx) ==
+  /\ src \in 1..NF /\ (idx = -1 => NF < MaxFrames) /\ idx < MaxFrames
+  /\ AddFrameF(obj.frm[src], idx, [op |-> "AddFrameAlias", src |-> src - 1, idx |-> idx]) /\ UNCHANGED callers
 SetParam(gname, pspec) ==
   NoCaseCollision(gname, pspec.n) /\
   LET built == ApplySets([MkParam(pspec.n, pspec.d) EXCEPT !.l = pspec.l], pspec.sets)
@@ -432,6 +457,8 @@ Next ==
   \/ \E k \in CallerIds, t \in Tags : CallerMutate(k, t)
   \/ \E k \in CallerIds, i \in IdxRange : AddCallerFrame(k, i)
   \/ \E f \in 1..MaxFrames, t \in Tags : WithEdits /\ EditStored(f, IF t = 0 THEN 200 + f ELSE t)
+  \/ \E g \in AliasGroups : SetParamAlias(g, 1, 1) \/ SetParamAlias(g, 2, 2)      \* POINT:USED, ANALOG:LABELS handed back to the object
+  \/ \E s \in 1..MaxFrames, i \in IdxRange : WithAlias /\ AddStoredFrame(s, i)
   \/ Lookups /\ \E q \in Queries(obj) : Get(q)
   \/ WithReload /\ Reload
   \/ \E i \in 1..Len(Files) : LoadBytes(i)
